@@ -1028,6 +1028,23 @@ ACCUM = ("push", "extend", "append", "insert", "push_str", "extend_from_slice", 
 RESET = ("clear", "truncate", "drain", "take")
 
 
+def _walk_outside_call_args(n):
+    """Nodes of an argument expression that belong to *this* call: the arguments of nested calls (e.g. the call wrapped by
+    the `?` desugaring, or `f(g(&mut buf))`) are judged at the nested call itself."""
+    if isinstance(n, list):
+        for v in n:
+            yield from _walk_outside_call_args(v)
+        return
+    if not isinstance(n, dict):
+        return
+    yield n
+    for k_, v in n.items():
+        if k_ == "args" and n.get("k") in ("Call", "MethodCall"):
+            continue
+        if isinstance(v, (dict, list)):
+            yield from _walk_outside_call_args(v)
+
+
 def loop_scratch(F, roots=None):
     """A scratch buffer that lives across iterations of a loop (declared outside it), is *filled* inside the loop (push/
     extend/…, or handed to a callee as `&mut buf`) and is also *consumed whole* inside the same loop (passed as `&buf`,
@@ -1091,7 +1108,7 @@ def loop_scratch(F, roots=None):
                         for a_ in c.get("args", []):
                             if a_.get("k") == "AddrOf" and a_.get("mut"):
                                 continue
-                            for x in walk(a_):
+                            for x in _walk_outside_call_args(a_):
                                 if x.get("k") == "Path" and x.get("res", {}).get("hid") == h:
                                     # element-wise reads inside the argument (buf.len(), buf[i]) do not hand the buffer over
                                     par = None
